@@ -21,11 +21,11 @@ def run(tier):
     tf = os.path.join(wd, "table.json")
     json.dump(table[0], open(tf, "w"))
     lmax = 1200 if thorough else 64
-    for cfg in ["stable", "nightly"]:
-        for s in range(40 if thorough else 1):
+    for cfg in ["stable", "nightly", RELEASE]:
+        for s in range(40 if thorough and cfg != RELEASE else 1):
             o = os.path.join(wd, "out_%s.json" % cfg)
             conform(cfg, ["codec", tf, o, ck.seed + s, lmax], timeout=3000)
-            _merge(ck, json.load(open(o)), "" if cfg == "stable" else "[nightly] ")
+            _merge(ck, json.load(open(o)), "" if cfg == "stable" else "[%s] " % cfg)
     if not ck.cov["distinct_nontrivial"]:
         ck.cov["distinct_nontrivial"] = len(table[0]["cases"]) + 8 * (lmax + 1)
     ck.cov["spec_cases"] = len(table[0]["cases"])
